@@ -26,6 +26,7 @@ type Ctl struct {
 	AfterUs int    `json:"after_us"`
 	K       string `json:"op"` // add remove gstop stop cancel
 	P       uint   `json:"p"`
+	Cap     int    `json:"cap"` // add: capacity of the new channel
 }
 
 // Script of one free-running scenario.
@@ -216,6 +217,7 @@ func Execute(s Script) Result {
 			break
 		}
 		stopped := make(chan struct{})
+		var adds sync.WaitGroup
 		for h := 0; h < s.H+1; h++ {
 			spawn(func(j *jit) {
 				for {
@@ -251,19 +253,29 @@ func Execute(s Script) Result {
 				}
 				switch c.K {
 				case "add":
-					ch := make(chan int, s.InCap)
+					// AddInput calls are issued from their own goroutines (several may be in progress
+					// at once); they are all awaited before termination is requested
+					ch := make(chan int, c.Cap)
 					spawnProd(producer(ch, s.Items))
-					callOrEnd(ctx, func() { d.AddInput(ch, c.P) })
+					p := c.P
+					adds.Add(1)
+					go func() {
+						defer adds.Done()
+						callOrEnd(ctx, func() { d.AddInput(ch, p) })
+					}()
 				case "remove":
 					callOrEnd(ctx, func() { d.RemoveInput(c.P) })
 				case "stop":
+					adds.Wait()
 					d.Stop()
 					ended = true
 				case "cancel":
+					adds.Wait()
 					dcancel()
 					d.Stop()
 					ended = true
 				case "gstop":
+					adds.Wait()
 					done := make(chan struct{})
 					go func() { d.GracefulStop(); close(done) }()
 					select {
@@ -274,6 +286,7 @@ func Execute(s Script) Result {
 					ended = true
 				}
 			}
+			adds.Wait()
 			if !ended {
 				done := make(chan struct{})
 				go func() { d.GracefulStop(); close(done) }()
@@ -500,7 +513,12 @@ func Gen(thorough bool) *rapid.Generator[Script] {
 		at := 0
 		for i := 0; i < nc; i++ {
 			at += rapid.IntRange(0, 300).Draw(t, "dt")
-			s.Ctl = append(s.Ctl, Ctl{AfterUs: at, K: rapid.SampledFrom([]string{"add", "add", "remove", "gstop", "stop", "cancel"}).Draw(t, "ck"), P: uint(rapid.IntRange(1, 5).Draw(t, "cp"))})
+			c := Ctl{AfterUs: at, K: rapid.SampledFrom([]string{"add", "add", "remove", "gstop", "stop", "cancel"}).Draw(t, "ck"), P: uint(rapid.IntRange(1, 5).Draw(t, "cp")), Cap: rapid.SampledFrom([]int{0, 0, 4}).Draw(t, "ccap")}
+			s.Ctl = append(s.Ctl, c)
+			if c.K == "add" && rapid.Bool().Draw(t, "twin") {
+				// a second AddInput for another priority at the same moment, from another goroutine
+				s.Ctl = append(s.Ctl, Ctl{AfterUs: at, K: "add", P: c.P + 5, Cap: c.Cap})
+			}
 		}
 		return s
 	})
